@@ -496,6 +496,13 @@ func c06Order(r *core.Run, p *core.Program) {
 			}
 		}
 		okFail = okFail && len(an.CallsTo(pt, false, "(*lib/chain.BlockTreeNode).FindFarthestNode")) > 0 && len(an.CallsTo(pt, false, "(*lib/chain.Chain).MoveToBlock")) > 0
+		// "best remaining" is searched over the whole tree, from its root: a search below the last connected
+		// block only sees what is left of the failed branch
+		for _, c := range an.CallsTo(pt, false, "(*lib/chain.BlockTreeNode).FindFarthestNode") {
+			if e := an.Expr(c.Common().Args[0]); e != "param#0.BlockTreeRoot" {
+				okFail = false
+			}
+		}
 	}
 	r.Check(okFail, rule, "reconnect/failed-branch-deleted", "-", "a block that fails while its branch is connected is deleted with its descendants and the best remaining branch is selected", "a failing block of a branch being connected is not deleted, or no other branch is selected afterwards")
 	// the failing tip block of a simple extension is removed from the tree and the set is untouched
